@@ -1550,6 +1550,18 @@ class Exec:
     def st_Delete(self, s):
         pass
 
+    def st_Raise(self, s):
+        self.guard = z3.BoolVal(False)      # exceptions abort the method: nothing to establish afterwards
+
+    def st_Assert(self, s):
+        self.assume(self.to_bool(self.ev(s.test)))
+
+    def st_Import(self, s):
+        pass
+
+    st_ImportFrom = st_Import
+    st_Global = st_Import
+
     def st_With(self, s):
         self.block(s.body)
 
